@@ -28,6 +28,8 @@ pub enum Mut {
     Unbacked { rec: usize, points: i32, parts: i32, with_m: bool, keep: usize },
     /// declare `entries` index entries in the .shx header (consistent length field, no data behind it)
     UnbackedIndex { entries: i32 },
+    /// as UnbackedIndex, and the .shp header announces a length that could hold that many records
+    UnbackedBoth { entries: i32, bytes_per_record: u8 },
 }
 
 #[derive(Serialize, Deserialize, Debug, Clone, Hash)]
@@ -185,6 +187,17 @@ pub fn materialise(c: &ByteCase) -> (Vec<u8>, Vec<u8>, bool) {
                 }
                 unbacked = true;
             }
+            Mut::UnbackedBoth { entries, bytes_per_record } => {
+                if shx.len() >= 100 && shp.len() >= 100 {
+                    let xw = 50i64 + 4 * *entries as i64;
+                    let sw = 50i64 + (*entries as i64 * (*bytes_per_record as i64).max(12)) / 2;
+                    if xw <= i32::MAX as i64 {
+                        shx[24..28].copy_from_slice(&(xw as i32).to_be_bytes());
+                        shp[24..28].copy_from_slice(&(sw.min(i32::MAX as i64) as i32).to_be_bytes());
+                        unbacked = true;
+                    }
+                }
+            }
             Mut::UnbackedIndex { entries } => {
                 if shx.len() >= 100 {
                     let words = 50i64 + 4 * *entries as i64;
@@ -216,6 +229,7 @@ fn check_case(c: &ByteCase, ctx: &mut Ctx, check_alloc: bool) -> Result<(), Fail
             Mut::Splice { .. } => "mut:splice",
             Mut::Unbacked { .. } => "mut:unbacked-counts",
             Mut::UnbackedIndex { .. } => "mut:unbacked-index",
+            Mut::UnbackedBoth { .. } => "mut:unbacked-both-headers",
         });
     }
     if check_alloc {
@@ -394,7 +408,8 @@ fn unbacked_mut(nrec_hint: usize) -> BoxedStrategy<Mut> {
     prop_oneof![
         6 => (0..nrec_hint.max(1), big.clone(), parts, any::<bool>(), prop_oneof![Just(0usize), 0usize..64, 64usize..4096])
             .prop_map(|(rec, points, parts, with_m, keep)| Mut::Unbacked { rec, points, parts, with_m, keep }),
-        1 => big.prop_map(|entries| Mut::UnbackedIndex { entries }),
+        1 => big.clone().prop_map(|entries| Mut::UnbackedIndex { entries }),
+        1 => (big, 12u8..64).prop_map(|(entries, bytes_per_record)| Mut::UnbackedBoth { entries, bytes_per_record }),
     ]
     .boxed()
 }
